@@ -19,6 +19,16 @@ NamesT == NamesQ \cup {<<A, PLUS, PLUS>>, <<B, COLON, A>>}
 TextsT == TextsQ \cup {<<SEMI, SEMI, w>>, <<w, SP>>, <<SP, LB, A, RB>>, <<EQ, v>>, <<LB, w, RB, SP>>, <<SEMI>>}
 CommentsT == CommentsQ \cup {<<SP, k, EQ, v>>}
 
+\* the merging configuration: headers [A] [A+] [B], one text, deeper
+NamesM == NamesQ
+TextsM == {<<k, EQ, v>>}
+CommentsM == {<<SP, k, EQ, v>>}
+\* ... and with [A++]
+NamesM2 == NamesQ \cup {<<A, PLUS, PLUS>>}
+
+ContQ == {<<w>>}
+ContM == {}
+
 Def == <<<<k, EQ, A>>, <<w, EQ, A>>>>
 Cli == <<<<w, EQ, B>>, <<w, EQ, v>>>>
 Cli2 == <<<<k, EQ, B>>>>
